@@ -1,5 +1,5 @@
 import VelaVerif.Lemmas.AllocHcErr
-/-! Lemmas for C05: HillClimb on valid input returns addresses or dies with Python's ValueError —
+/-! Lemmas for C05: HillClimb on valid input always returns addresses (given enough oracle draws) —
     termination of the predecessor walk (ghost run numbers), permutation invariant of `indices`,
     completeness of every stored allocation. -/
 namespace VelaVerif.Alloc
@@ -353,17 +353,37 @@ theorem sat_of_eq {α : Type} {S : Err → Prop} {Q : α → Prop} {x : Except E
   · intro e he; subst he; exact h
   · intro a ha; subst ha; exact h
 
-/-- the errors a valid HillClimb run may end with: Python's ValueError, or an exhausted oracle -/
-def PyErr (e : Err) : Prop := e = .value ∨ e = .draws
+/-- the only error a valid HillClimb run may end with: the supplied oracle list is exhausted
+    (not a Python outcome; `random.randint` never runs dry) -/
+def PyErr (e : Err) : Prop := e = .draws
 
-theorem randint_sat (draws : List Nat) (n k : Nat) :
+/-- `random.randint(0, n - k)` on a non-empty range never raises ValueError -/
+theorem randint_sat (draws : List Nat) (n k : Nat) (h : k ≤ n) :
     Sat PyErr (fun _ => True) (randint draws n k) := by
   unfold randint
+  have : ¬ n < k := by omega
+  simp only [this, if_false]
   split
-  · exact sat_error (Or.inl rfl)
-  · split
-    · exact sat_error (Or.inr rfl)
-    · exact sat_ok trivial
+  · exact sat_error rfl
+  · exact sat_ok trivial
+
+theorem length_pos_of_not_isEmpty {α : Type} (l : List α) (h : (!l.isEmpty) = true) : 1 ≤ l.length := by
+  cases l with
+  | nil => simp at h
+  | cons _ _ => simp
+
+theorem pushNew_size_le (tl : Array Nat) (t : Nat) : tl.size ≤ (pushNew tl t).size := by
+  unfold pushNew
+  split
+  · exact Nat.le_refl _
+  · simp
+
+theorem foldl_pushNew_size_le (l : List Nat) (tl : Array Nat) : tl.size ≤ (List.foldl pushNew tl l).size := by
+  induction l generalizing tl with
+  | nil => exact Nat.le_refl _
+  | cons t ts ih =>
+    rw [List.foldl_cons]
+    exact Nat.le_trans (pushNew_size_le tl t) (ih _)
 
 def IsPerm (n : Nat) (l : List Nat) : Prop := l.Perm (List.range n)
 
@@ -549,16 +569,22 @@ theorem hcFix_sat (lrs : List LR) (hw : WellIds lrs) (dyn : Array Dyn) (run : Na
     intro f x hx
     obtain ⟨y, hy, rfl⟩ := List.mem_map.1 hx
     exact hlrAt y (List.mem_filter.1 hy).1
-  refine sat_bind (randint_sat _ _ _) ?_; intro x0 _
-  refine sat_ite ?_ ?_ <;> intro _ <;>
-  ( refine sat_bind (randint_sat _ _ _) ?_; intro x1 _
+  refine sat_ite (fun _ => sat_pure hperm) ?_
+  intro hsize
+  refine sat_bind (randint_sat _ _ _ (by omega)) ?_; intro x0 _
+  refine sat_ite ?_ ?_ <;> intro hc <;>
+  ( refine sat_bind (randint_sat _ _ _ ?_) ?_
+    · first
+        | exact length_pos_of_not_isEmpty _ hc.2
+        | omega
+    intro x1 _
     refine sat_bind (Q1 := fun r => r.1 < lrs.length) ?_ ?_
     · apply sat_pure
       first
         | exact list_getD_lt _ hn _ (hnonNb _) _
         | exact array_getD_lt _ hn tl htl _
     intro x2 hx2
-    refine sat_bind (randint_sat _ _ _) ?_; intro x3 _
+    refine sat_bind (randint_sat _ _ _ (by omega)) ?_; intro x3 _
     refine sat_bind (swapIdx_sat _ indices hperm _ _ hx2 ?_) ?_
     · split
       · exact array_getD_lt _ hn tl htl _
@@ -592,8 +618,9 @@ theorem hcFix_sat (lrs : List LR) (hw : WellIds lrs) (dyn : Array Dyn) (run : Na
         intro t ht
         obtain ⟨y, hy, hty⟩ := List.mem_flatten.1 ht
         exact hnb y hy t hty
-      refine sat_bind (randint_sat _ _ _) ?_; intro x4 _
-      refine sat_bind (randint_sat _ _ _) ?_; intro x5 _
+      have hsz2 := foldl_pushNew_size_le nbTurns.flatten tl
+      refine sat_bind (randint_sat _ _ _ (by omega)) ?_; intro x4 _
+      refine sat_bind (randint_sat _ _ _ (by omega)) ?_; intro x5 _
       refine sat_bind (swapIdx_sat _ indices2 hperm2 _ _ (array_getD_lt _ hn _ htl2 _)
         (array_getD_lt _ hn _ htl2 _)) ?_
       intro indices3 hperm3
@@ -880,8 +907,8 @@ theorem isort_ids_perm (lrs : List LR) (hw : WellIds lrs) :
   have : (mkInfos lrs).toList.map (·.lr.id) = List.range lrs.length := h1.trans h2
   rw [this]
 
-/-- **HillClimb on valid input either returns addresses or dies with Python's ValueError** (or the
-    oracle list is too short): no other model outcome is reachable. -/
+/-- **HillClimb on valid input returns addresses** unless the supplied oracle list is too short:
+    no Python exception and no other model outcome is reachable. -/
 theorem hcAllocate_outcomes (lrs : List LR) (hw : WellIds lrs) (hne : lrs ≠ []) (C : Nat)
     (hC : ∀ lr ∈ lrs, lr.size + lr.align ≤ C ∧ 0 < lr.align) (hbound : lrs.length * C ≤ 2 ^ 63)
     (maxIter : Option Nat) (memLimit : Nat) (draws : List Nat) :
